@@ -440,11 +440,15 @@ func (p *Pipeline) In(sourceID SourceID, sourceName string, offsets Offsets, byt
 	// For example, for containerd this setting is called max_container_log_line_size
 	// https://github.com/containerd/containerd/blob/f7f2be732159a411eae46b78bfdb479b133a823b/pkg/cri/config/config.go#L263-L266
 	if !row.IsPartial && p.settings.Antispam.Threshold >= 0 {
-		streamOffset := offsets.ByStream(string(row.Stream))
-		currentOffset := offsets.current
+		// the "already processed" short-cut needs the stream of the row, which only the CRI decoder knows before decoding:
+		// with any other decoder row.Stream is empty and the saved offset of a stream named "" would be applied to every event
+		if dec == decoder.CRI {
+			streamOffset := offsets.ByStream(string(row.Stream))
+			currentOffset := offsets.current
 
-		if streamOffset > 0 && currentOffset < streamOffset {
-			return EventSeqIDError
+			if streamOffset > 0 && currentOffset < streamOffset {
+				return EventSeqIDError
+			}
 		}
 
 		var checkSourceID string
